@@ -290,3 +290,70 @@ contract(E + "_process_batch").effect(lambda P, loc: P.event('field.write', id(l
 for qn in ("_get_object_with_access_controls", "_list_objects_with_access_controls"):
     declare_reads(contract(E + qn), ['_client_identity', '_data_session'])
 declare_reads(contract(E + "_get_object_type"), ['_data_session'])
+
+# ---------------------------------------------------------------- C16: Query / DiscoverVersions
+def t_query_advertises_only_available(ev, outcome, exc, path, I):
+    """Every operation advertised under the request's version is dispatched by the server and
+    already defined by that version."""
+    if outcome != 'return':
+        return True
+    res = I.ghost_globals.get('__result__')
+    eng = I.ghost_globals.get('__self__')
+    pv = eng.fields.get('_protocol_version')
+    version = (pv.major, pv.minor) if pv is not None else None
+    ops = res.fields.get('_operations') or []
+    for o in ops:
+        m = getattr(o, 'fields', {}).get('value', o)
+        name = getattr(m, 'name', None)
+        if name is None:
+            return "advertised operation is not a constant"
+        if name not in DISPATCHED:
+            return "Query advertises %s, which the server does not dispatch" % name
+        if version is not None and name in MIN_VERSION and version < MIN_VERSION[name]:
+            return "Query advertises %s under KMIP %s, which does not define it" % (name, version)
+    return True
+
+
+c = contract(E + "_process_query").props('C16')
+c.args(self=ENGINE, payload=('obj', 'kmip.core.messages.payloads.query.QueryRequestPayload',
+                             {'_query_functions': ('list', ('obj', 'kmip.core.primitives.Base', {'value': ('enum', 'kmip.core.enums.QueryFunction')}), (1, 2, 3))}))
+c.let('__self__', 'self')
+c.raises(KMIP_ERRORS)
+c.trace("advertises-only-available-operations", t_query_advertises_only_available)
+c.trusted = False
+c.notes.clear()
+
+
+def t_discover_subset(ev, outcome, exc, path, I):
+    """Every version reported is one the server accepts."""
+    eng = I.ghost_globals.get('__self__')
+    sup = eng.fields['_protocol_versions']
+    for e in ev:
+        if e[0] == 'list.append' and e[2] is not None:
+            v = e[2]
+            t = I.truth(I.models.contains(I, sup, v))
+            if not (t is True or (t is not False and path.is_valid(t))):
+                return "DiscoverVersions reports a version the server does not accept"
+    if outcome == 'return':
+        res = I.ghost_globals.get('__result__')
+        pvs = res.fields.get('protocol_versions')
+        if isinstance(pvs, list):
+            for v in pvs:
+                if not any(v is s for s in sup):
+                    return "DiscoverVersions reports a version object that is not one of the supported ones"
+    return True
+
+
+c = contract(E + "_process_discover_versions").props('C16', 'C11')
+c.args(self=ENGINE, payload=('obj', 'kmip.core.messages.payloads.discover_versions.DiscoverVersionsRequestPayload',
+                             {'protocol_versions': ('oneof', ('const', 'EMPTYLIST'), ('slist', PV))}))
+c.let('__self__', 'self')
+c.loop(0, "True", havoc={'supported_versions': 'opaque_list'})
+c.raises(KMIP_ERRORS)
+c.trace("reports-only-accepted-versions", t_discover_subset)
+c.trusted = False
+c.notes.clear()
+
+c = contract("kmip.core.messages.payloads.discover_versions.DiscoverVersionsResponsePayload.validate").props('C16')
+c.trust("type validation of the version list of the response payload (raises TypeError only for a member that "
+        "is not a ProtocolVersion)")
